@@ -88,10 +88,10 @@ theorem home_mem_scopes (pkg ctx tgtPkg tgt : Path) :
         exact ⟨_, mem_takesDown ctx ctx.length _ (by omega) hle, rfl⟩
 
 /-- the printed name, read in the home scope, spells the target -/
-theorem home_append_refName (pkg ctx tgtPkg tgt : Path) (hne : tgt ≠ []) :
-    home pkg ctx tgtPkg tgt ++ refName pkg ctx tgtPkg tgt = tgtPkg ++ tgt ∧
-    refName pkg ctx tgtPkg tgt ≠ [] := by
-  unfold home refName
+theorem home_append_shortName (pkg ctx tgtPkg tgt : Path) (hne : tgt ≠ []) :
+    home pkg ctx tgtPkg tgt ++ shortName pkg ctx tgtPkg tgt = tgtPkg ++ tgt ∧
+    shortName pkg ctx tgtPkg tgt ≠ [] := by
+  unfold home shortName
   split
   · simp [hne]
   · rename_i h
@@ -149,5 +149,104 @@ theorem resolveIn_skip (t : Tab) (only : Bool) (first : String) (rest : Path) :
       · simp only [ne_eq, hr, not_false_eq_true, decide_true, if_true] at hc
         simp only [hr, if_false, hc, Bool.not_false, if_true]
         exact resolveIn_skip t only first rest inner more best hrest
+
+theorem takesDown_length (l : Path) : ∀ n, (takesDown l n).length = n
+  | 0 => rfl
+  | n + 1 => by simp [takesDown, takesDown_length l n]
+
+theorem takesDown_split (l : Path) : ∀ (n k : Nat), 1 ≤ k → k ≤ n →
+    takesDown l n = (takesDown l n).take (n - k) ++ l.take k :: takesDown l (k - 1)
+  | 0, k, h1, h2 => by omega
+  | n + 1, k, h1, h2 => by
+    by_cases hk : k = n + 1
+    · subst hk
+      simp [takesDown]
+    · have ih := takesDown_split l n k h1 (by omega)
+      have e : n + 1 - k = (n - k) + 1 := by omega
+      rw [e]
+      simp only [takesDown, List.take_succ_cons, List.cons_append]
+      exact congrArg _ ih
+
+/-- in the same package the scopes split at the one the short name is relative to -/
+theorem scopes_split_same (pkg ctx : Path) (k : Nat) (hk : k ≤ ctx.length) :
+    ∃ outer, scopes pkg ctx = innerScopes pkg ctx k ++ (pkg ++ ctx.take k) :: outer := by
+  unfold scopes innerScopes
+  by_cases h0 : k = 0
+  · subst h0
+    have : (takesDown ctx ctx.length).take (ctx.length - 0) = takesDown ctx ctx.length := by
+      apply List.take_of_length_le
+      rw [takesDown_length]; omega
+    rw [this]
+    simp only [List.take_zero, List.append_nil]
+    cases pkg with
+    | nil => exact ⟨[], by simp [takesDown]⟩
+    | cons p ps =>
+      refine ⟨takesDown (p :: ps) ps.length ++ [[]], ?_⟩
+      simp [takesDown]
+  · have hs := takesDown_split ctx ctx.length k (by omega) hk
+    refine ⟨(takesDown ctx (k - 1)).map (pkg ++ ·) ++ (takesDown pkg pkg.length ++ [[]]), ?_⟩
+    conv => lhs; rw [hs]
+    simp [List.map_append]
+
+/-- The search finds the target in the scope `hm` if no earlier scope captures the name. -/
+theorem resolve_of_split (t : Tab) (only : Bool) (pkg ctx tgtPkg tgt hm : Path)
+    (first : String) (rest : Path) (inner outer : List Path)
+    (hwf : SymtabWF t only tgtPkg tgt)
+    (hsplit : scopes pkg ctx = inner ++ hm :: outer)
+    (hinner : ∀ pre ∈ inner, captures t only pre first (rest ≠ []) = false)
+    (hfull : hm ++ first :: rest = tgtPkg ++ tgt) :
+    resolve t pkg ctx only (first :: rest) = some (tgtPkg ++ tgt) := by
+  obtain ⟨hne, ⟨k, hk, hkt⟩, hanc, hpk⟩ := hwf
+  unfold resolve
+  simp only []
+  rw [hsplit]
+  obtain ⟨best', hskip⟩ := resolveIn_skip t only first rest inner (hm :: outer) none hinner
+  rw [hskip]
+  simp only [resolveIn, resolveRel]
+  by_cases hr : rest = []
+  · subst hr
+    have : hm ++ [first] = tgtPkg ++ tgt := hfull
+    rw [this, hk]
+    simp only [if_true]
+    cases only with
+    | true =>
+      simp only [if_true] at hkt
+      simp [hkt]
+    | false =>
+      simp only [Bool.false_eq_true, if_false] at hkt
+      simp [hkt]
+  · have hlen : hm.length + 1 < (tgtPkg ++ tgt).length := by
+      rw [← hfull]
+      have : 0 < rest.length := List.length_pos_iff.mpr hr
+      simp; omega
+    have hpre : hm ++ [first] = (tgtPkg ++ tgt).take (hm.length + 1) := by
+      rw [← hfull]
+      have e : hm ++ first :: rest = (hm ++ [first]) ++ rest := by simp
+      rw [e, List.take_left' (by simp)]
+    have hagg : ∃ k', t.find (hm ++ [first]) = some k' ∧ k'.isAggregate = true := by
+      rw [hpre]
+      have hmpos : 0 < hm.length + 1 := by omega
+      generalize hm.length + 1 = m at hlen hmpos
+      by_cases hmp : m ≤ tgtPkg.length
+      · refine ⟨.ns, ?_, rfl⟩
+        rw [List.take_append_of_le_length hmp]
+        exact hpk m hmpos hmp
+      · refine ⟨.msg, ?_, rfl⟩
+        have hj : (tgtPkg ++ tgt).take m = tgtPkg ++ tgt.take (m - tgtPkg.length) := by
+          rw [List.take_append]
+          have : tgtPkg.take m = tgtPkg := List.take_of_length_le (by omega)
+          rw [this]
+        rw [hj]
+        apply hanc
+        · omega
+        · simp at hlen; omega
+    obtain ⟨k', hk', hagg'⟩ := hagg
+    rw [hk', hfull, hk]
+    simp only [hr, if_false, hagg', Bool.not_true, Bool.false_eq_true]
+    have hcond : (!only || k.isType || decide (rest ≠ [])) = true := by simp [hr]
+    simp only [hcond, if_true]
+    cases only with
+    | true => simpa using hkt
+    | false => simpa using hkt
 
 end J5V.Print.RefName
